@@ -199,6 +199,9 @@ def doc_sami(caps, rng):
 VTT_NAMED = {"&": "&amp;", "<": "&lt;", ">": "&gt;", " ": "&nbsp;", "‎": "&lrm;", "‏": "&rlm;"}
 
 
+GT_RNG = None
+
+
 def doc_vtt(caps, rng, numeric=False):
     out = ["WEBVTT", ""]
     expect = []
@@ -212,7 +215,8 @@ def doc_vtt(caps, rng, numeric=False):
             if voice:
                 name = rng.choice(["Bob", "Mary Ann", "Dr. X"]); segs.append("<v%s %s>" % (rng.choice(["", ".loud", ".a.b"]), name)); exp.append(name + ":"); tagged = True
             for s, ws in groups(line):
-                txt = " ".join(spell(w, rng, VTT_NAMED, must=("&", "<", ">"), numeric=numeric) for w in ws)
+                # a literal `>` is legal in cue text (only `&` and `<` must be escaped); `-->` is not
+                txt = " ".join(spell(w, rng, VTT_NAMED, must=(("&", "<") if (GT_RNG is not None and "--" not in w and GT_RNG.random() < 0.6) else ("&", "<", ">")), numeric=numeric) for w in ws)
                 r = rng.random()
                 if s is not None:
                     txt = "<%s>%s</%s>" % (s, txt, s); tagged = True
@@ -245,7 +249,8 @@ def doc_vtt(caps, rng, numeric=False):
 
 def explore(chk):
     import pycaption
-    global CDATA_RNG, WS_RNG
+    global CDATA_RNG, WS_RNG, GT_RNG
+    GT_RNG = chk.sub("vtt_literal_greater_than")
     CDATA_RNG = chk.sub("dfxp_cdata")
     WS_RNG = chk.sub("vtt_blank_looking_lines")
     rng = chk.rng
